@@ -408,26 +408,68 @@ func (env *SpecEnv) trSel(e *SExpr) Val {
 			}
 		}
 	}
-	base := env.tr(e.Args[0])
-	if base.GT == nil {
-		env.fail("field selection %s on a value without a Go type (sort %s)", e, base.S)
+	cur, t := env.selCursor(e.Args[0])
+	if t == nil {
+		env.fail("field selection %s on a value without a Go type", e)
 	}
-	obj, index, _ := types.LookupFieldOrMethod(base.GT, true, env.pkgOrNil(), e.S)
+	cur, f := env.walkSel(cur, t, e.S, e)
+	if cur.isRef {
+		return c.fieldRead(env.st, cur.ref, cur.owner, cur.prefix, f)
+	}
+	fs := c.sortOf(f.Type())
+	return Val{T: c.fldApp(cur.val.S, f.Name(), fs, cur.val.T), S: fs, GT: f.Type()}
+}
+
+// selCursor evaluates the base of a selection, keeping struct-valued fields reached through a
+// pointer as locations (sub-objects) instead of loading them as values.
+func (env *SpecEnv) selCursor(e *SExpr) (cursor, types.Type) {
+	c := env.c
+	if e.Op == "sel" {
+		// is it a package-qualified name? then it is a plain value
+		isPkg := false
+		if e.Args[0].Op == "ident" {
+			if _, b := env.bound[e.Args[0].S]; !b {
+				if obj, ok := env.lookupGo(e.Args[0].S); ok {
+					_, isPkg = obj.(*types.PkgName)
+				}
+			}
+		}
+		if !isPkg {
+			cur, t := env.selCursor(e.Args[0])
+			if t != nil {
+				cur2, f := env.walkSel(cur, t, e.S, e)
+				if isStructVal(f.Type()) {
+					return c.stepField(env.st, cur2, f), f.Type()
+				}
+				if cur2.isRef {
+					v := c.fieldRead(env.st, cur2.ref, cur2.owner, cur2.prefix, f)
+					return cursor{val: v}, f.Type()
+				}
+				fs := c.sortOf(f.Type())
+				return cursor{val: Val{T: c.fldApp(cur2.val.S, f.Name(), fs, cur2.val.T), S: fs, GT: f.Type()}}, f.Type()
+			}
+		}
+	}
+	v := env.tr(e)
+	return cursor{val: v}, v.GT
+}
+
+// walkSel follows the (possibly promoted) field path of `name` in type t starting at cur and returns
+// the cursor of the struct that directly holds the field, and the field.
+func (env *SpecEnv) walkSel(cur cursor, t types.Type, name string, e *SExpr) (cursor, *types.Var) {
+	c := env.c
+	obj, index, _ := types.LookupFieldOrMethod(t, true, env.pkgOrNil(), name)
 	f, ok := obj.(*types.Var)
 	if !ok {
-		// try with the package that declares the type (unexported fields)
-		if n := namedOf(base.GT); n != nil && n.Obj().Pkg() != nil {
-			obj, index, _ = types.LookupFieldOrMethod(base.GT, true, n.Obj().Pkg(), e.S)
+		if n := namedOf(t); n != nil && n.Obj().Pkg() != nil {
+			obj, index, _ = types.LookupFieldOrMethod(t, true, n.Obj().Pkg(), name)
 			f, ok = obj.(*types.Var)
 		}
 	}
 	if !ok {
-		env.fail("no field %s in %s", e.S, base.GT)
+		env.fail("no field %s in %s (%s)", name, t, e)
 	}
-	cur := cursor{val: base}
-	t := base.GT
 	for i, idx := range index {
-		// deref without obligation (specs are total; reading through nil gives an arbitrary value)
 		if !cur.isRef {
 			if p, ok := cur.val.GT.Underlying().(*types.Pointer); ok {
 				cur = cursor{isRef: true, ref: cur.val.T, owner: p.Elem()}
@@ -438,22 +480,17 @@ func (env *SpecEnv) trSel(e *SExpr) Val {
 		}
 		stt, ok := t.Underlying().(*types.Struct)
 		if !ok {
-			env.fail("cannot select %s in %s", e.S, t)
+			env.fail("cannot select %s in %s", name, t)
 		}
 		g := stt.Field(idx)
 		if i == len(index)-1 {
-			_ = f
-			if cur.isRef {
-				return c.fieldRead(env.st, cur.ref, cur.owner, cur.prefix, g)
-			}
-			fs := c.sortOf(g.Type())
-			return Val{T: c.fldApp(cur.val.S, g.Name(), fs, cur.val.T), S: fs, GT: g.Type()}
+			return cur, g
 		}
 		cur = c.stepField(env.st, cur, g)
 		t = g.Type()
 	}
 	env.fail("bad selection %s", e)
-	return Val{}
+	return cursor{}, f
 }
 
 func namedOf(t types.Type) *types.Named {
@@ -593,6 +630,29 @@ func (env *SpecEnv) trCall(e *SExpr) Val {
 		x := env.tr(args[0])
 		env.want(x, "Iface", args[0])
 		return Val{T: "(iref " + x.T + ")", S: "Int"}
+	case "zerov":
+		// zerov("Sort"): the Go zero value of that sort
+		if args[0].Op != "str" {
+			env.fail("zerov needs a sort name string")
+		}
+		so, err := c.parseSort(args[0].S)
+		if err != nil {
+			env.fail("%v", err)
+		}
+		if t := c.eng.lookupVSort(so); t != nil {
+			return c.zero(t)
+		}
+		return Val{T: c.zeroOfSort(so, nil), S: so}
+	case "deref":
+		x := env.tr(args[0])
+		if x.GT == nil {
+			env.fail("deref of a value without Go type: %s", args[0])
+		}
+		et := elemType(x.GT)
+		if et == nil {
+			env.fail("deref of non-pointer %s", args[0])
+		}
+		return c.cellRead(env.st, x.T, et)
 	case "isnil":
 		x := env.tr(args[0])
 		return Val{T: c.nilTest(x), S: "Bool"}
@@ -630,6 +690,23 @@ func (env *SpecEnv) trCall(e *SExpr) Val {
 			}
 		}
 		env.fail("typeis: type %s has no tag (never boxed in the loaded code)", args[1].S)
+	case "unbox":
+		// unbox(x, "Sort"): the value of sort Sort held by interface value x
+		x := env.tr(args[0])
+		env.want(x, "Iface", args[0])
+		if args[1].Op != "str" {
+			env.fail("unbox needs a sort name string")
+		}
+		so, err := c.parseSort(args[1].S)
+		if err != nil {
+			env.fail("%v", err)
+		}
+		if so == "Int" {
+			return Val{T: "(iref " + x.T + ")", S: "Int"}
+		}
+		uf := "unbox!" + mangle(so)
+		c.declFun(uf, []Sort{"Int"}, so)
+		return Val{T: "(" + uf + " (iref " + x.T + "))", S: so}
 	case "unboxptr":
 		x := env.tr(args[0])
 		return Val{T: "(iref " + x.T + ")", S: "Int"}
